@@ -49,6 +49,10 @@ RULE += (
     'sitional construction; num_epochs up to 33 over small datasets; the dataset may be the h'
     'ead of a longer dataset in use; one case in thirteen has 257-1000 (rarely 66000) example'
     's.')
+RULE += (
+    ' '
+    'Also: a third of the cases read the view through a consumer that overwrites its batches '
+    'in place.')
 ASSUMPTIONS = [
     'N >= 1 (an empty dataset with num_epochs=None never terminates; outside '
     'the property)',
